@@ -3,9 +3,9 @@ package main
 // C01 — stanza encode/decode round trip preserves every field; text never injects XML.
 
 import (
-	"os"
 	"fmt"
 	"go/types"
+	"os"
 	"regexp"
 	"sort"
 	"strconv"
